@@ -46,6 +46,8 @@ type c16Scenario struct {
 	// liveness
 	Launched       bool `json:"launched,omitempty"`       // Launched=True (else Unknown and Create keeps failing)
 	RegisteredTrue bool `json:"registeredTrue,omitempty"` // node registered already
+	// RegisteredFalse: registration found two Nodes with the NodeClaim's provider id (Registered=False, MultipleNodesFound)
+	RegisteredFalse bool `json:"registeredFalse,omitempty"`
 	// health
 	PoolNodes  int    `json:"poolNodes,omitempty"`
 	Unhealthy  int    `json:"unhealthy,omitempty"` // other unhealthy nodes in the pool
@@ -76,6 +78,7 @@ func drawC16(t *rapid.T) *c16Scenario {
 	case "liveness":
 		s.Launched = rapid.Bool().Draw(t, "launched")
 		s.RegisteredTrue = rapid.IntRange(0, 4).Draw(t, "registeredTrue") == 0
+		s.RegisteredFalse = !s.RegisteredTrue && rapid.IntRange(0, 3).Draw(t, "registeredFalse") == 0
 	case "health":
 		s.PoolNodes = rapid.IntRange(1, 8).Draw(t, "poolNodes")
 		s.Unhealthy = rapid.IntRange(0, s.PoolNodes-1).Draw(t, "unhealthy")
@@ -278,6 +281,8 @@ func runC16(s *c16Scenario, faultIdx int) *c16Run {
 			nc.StatusConditions().SetTrue(v1.ConditionTypeLaunched)
 			if s.RegisteredTrue {
 				nc.StatusConditions().SetTrue(v1.ConditionTypeRegistered)
+			} else if s.RegisteredFalse {
+				nc.StatusConditions().SetFalse(v1.ConditionTypeRegistered, "MultipleNodesFound", "Invariant violated, matched multiple nodes")
 			} else {
 				nc.StatusConditions().SetUnknownWithReason(v1.ConditionTypeRegistered, "NodeNotFound", "Node not registered with cluster")
 			}
@@ -295,6 +300,14 @@ func runC16(s *c16Scenario, faultIdx int) *c16Run {
 			w.Provider.Adopt(nc, sim.LaunchOption{Type: c14Catalog[0], Offering: c14Catalog[0].Offerings[0], OS: "linux"})
 			if s.RegisteredTrue {
 				w.Apply(c16Node("node-1", nc.Status.ProviderID, pool.Name, true, now.Add(-time.Hour)))
+			}
+			if s.RegisteredFalse {
+				// e.g. the kubelet re-registered under a new name: two Nodes carry the provider id
+				for _, n := range []string{"node-1", "node-1b"} {
+					dup := c16Node(n, nc.Status.ProviderID, pool.Name, true, now.Add(-time.Hour))
+					delete(dup.Labels, v1.NodeRegisteredLabelKey)
+					w.Apply(dup)
+				}
 			}
 		}
 		lc := w.NewLifecycle(nil)
